@@ -95,7 +95,7 @@ fn parse_ops(tokens: &[&str]) -> Option<(Vec<Op>, Vec<Peer>)> {
                 peers.push(parse_peer(p)?);
             }
             ["slave", n] => ops.push(Op::SetSlave(n.parse().ok()?)),
-            ["timeout", t] => ops.push(Op::SetTimeout(if *t == "-" { None } else { Some(t.parse().ok()?) })),
+            ["timeout", t] => ops.push(Op::SetTimeout(if *t == "-" { None } else if *t == "max" { Some(u64::MAX) } else { Some(t.parse().ok()?) })),
             _ => return None,
         }
     }
@@ -134,12 +134,21 @@ macro_rules! typed_dispatch {
 
 /// `SYNC|ASYNC <tcp|rtu> <timeout ms|-> <slave|-> <ops>`; op = `call|typed <req> <peer>` | `slave <n>`
 /// output: per op `result rx=<request frame the peer received for it>`, then ` ; elapsed_ok=<0|1>`
+fn ms_dur(ms: u64) -> Duration {
+    if ms == u64::MAX {
+        Duration::MAX
+    } else {
+        Duration::from_millis(ms)
+    }
+}
+
 pub fn run_live(is_sync: bool, tokens: &[&str]) -> String {
     if tokens.len() < 4 {
         return "ERR live".into();
     }
     let proto = tokens[0];
-    let mut timeout: Option<Duration> = if tokens[1] == "-" { None } else { tokens[1].parse().ok().map(Duration::from_millis) };
+    // `max` = Duration::MAX, the largest timeout the API accepts (it can never fire)
+    let mut timeout: Option<Duration> = if tokens[1] == "-" { None } else if tokens[1] == "max" { Some(Duration::MAX) } else { tokens[1].parse().ok().map(ms_dur) };
     let slave: Option<u8> = if tokens[2] == "-" { None } else { tokens[2].parse().ok() };
     let Some((ops, peers)) = parse_ops(&tokens[3..]) else {
         return "ERR liveops".into();
@@ -152,7 +161,7 @@ pub fn run_live(is_sync: bool, tokens: &[&str]) -> String {
     let (addr_tx, addr_rx) = std::sync::mpsc::channel::<String>();
     let log2 = log.clone();
     let proto2 = proto.to_string();
-    let longest = ops.iter().filter_map(|o| if let Op::SetTimeout(Some(ms)) = o { Some(Duration::from_millis(*ms)) } else { None }).chain(timeout).max();
+    let longest = ops.iter().filter_map(|o| if let Op::SetTimeout(Some(ms)) = o { Some(ms_dur(*ms)) } else { None }).chain(timeout).filter(|t| *t != Duration::MAX).max();
     let linger = longest.map_or(Duration::from_millis(250), |t| t + Duration::from_millis(300));
     let peer_thread = std::thread::spawn(move || {
         let rt = tokio::runtime::Builder::new_current_thread().enable_all().build().unwrap();
@@ -224,18 +233,18 @@ pub fn run_live(is_sync: bool, tokens: &[&str]) -> String {
                 }
                 Op::SetTimeout(t) => {
                     match t {
-                        Some(ms) => ctx.set_timeout(Duration::from_millis(*ms)),
+                        Some(ms) => ctx.set_timeout(ms_dur(*ms)),
                         None => ctx.reset_timeout(),
                     }
                     timeout = ctx.timeout();
-                    outs.push(format!("ok t={}", ctx.timeout().map_or("-".to_string(), |d| d.as_millis().to_string())));
+                    outs.push(format!("ok t={}", ctx.timeout().map_or("-".to_string(), |d| if d == Duration::MAX { "max".to_string() } else { d.as_millis().to_string() })));
                 }
                 Op::Call(req, typed) => {
                     let t0 = Instant::now();
                     let res = if *typed { typed_dispatch!(ctx, req,) } else { show_call(&ctx.call(req.clone())) };
                     let el = t0.elapsed();
                     if let Some(t) = timeout {
-                        if el > t + Duration::from_secs(5) {
+                        if el > t.saturating_add(Duration::from_secs(5)) {
                             timing_ok = false;
                         }
                     }
@@ -269,8 +278,8 @@ pub fn run_live(is_sync: bool, tokens: &[&str]) -> String {
                     }
                     Op::SetTimeout(t) => {
                         // the asynchronous client has no timeout of its own: the caller wraps each call
-                        timeout = t.map(Duration::from_millis);
-                        outs.push(format!("ok t={}", t.map_or("-".to_string(), |ms| ms.to_string())));
+                        timeout = t.map(ms_dur);
+                        outs.push(format!("ok t={}", t.map_or("-".to_string(), |ms| if ms == u64::MAX { "max".to_string() } else { ms.to_string() })));
                     }
                     Op::Call(req, typed) => {
                         let fut = async {
